@@ -495,7 +495,7 @@ func fixIncludes(source *Ast, needed, optional map[string]*SourceFile, extraType
 		// Sort same-directory includes after ones from other directories.
 		if len(dir1) == 0 && len(dir2) > 0 {
 			return false
-		} else if len(dir2) == 0 && len(dir1) > 1 {
+		} else if len(dir2) == 0 && len(dir1) > 0 {
 			return true
 		}
 		// Sort by directories.
